@@ -1,5 +1,5 @@
 (* Props/C06.v — writes reach the transport complete, contiguous and in order. *)
-Require Import Base.Bytes Net.Frame Net.FrameProofs Net.Framed Net.FramedProofs Net.ConvProofs Net.Async Net.AsyncProofs Net.AsyncConvProofs.
+Require Import Base.Bytes Net.Frame Net.FrameProofs Net.Framed Net.FramedProofs Net.ConvProofs Net.Async Net.AsyncProofs Net.AsyncConvProofs Net.Concrete.
 Local Open Scope N_scope.
 
 (* whatever the acceptance pattern (any k >= 1 bytes per call, any number of not-ready turns),
@@ -57,6 +57,12 @@ Theorem c06_caller_frames_in_call_order :
   forall fuel c s rs ws cancels wsched acc,
     is_prefix (flat_map (user_frame packet) (aconv packet parse ver_of is_keepalive version m verify pong fuel c s rs ws cancels wsched acc)) (concat wsched).
 Proof. exact aconv_user_frames. Qed.
+
+(* the connection structs and the codec of the source have exactly the fields the models carry as state (regenerated field
+   names): nothing else can be left behind by a failed or dropped write *)
+Theorem c06_model_state_is_the_struct : state_tied = true.
+Proof. vm_compute. reflexivity. Qed.
+
 
 Example c06_example :
   write_all [WPending; WAccept 0; WPending; WAccept 1; WAccept 9] [1;3;0;0] = ([1;3;0;0], WOk, []).
